@@ -1,5 +1,5 @@
 """C18 - White and Black, and left and right, are treated symmetrically (premises only)."""
-from . import symrules, emitrules, genrules
+from . import symrules, emitrules, genrules, attackrules
 from .c20 import ctfe_rule
 
 
@@ -9,6 +9,9 @@ def run(ctx):
         "Y5/Y6 the generator and the validator of both colour instances equal one reference that is written once and is itself "
         "symmetric under the colour flip and the left-right mirror (rules/genrules.py _ref_semilegal, wf_ref): so the semilegal move "
         "sets of mirrored positions are mirror images (C06/G6, G7 re-run)",
+        "Y7 the legality filter over those semilegal moves is the symmetric reference as well: the pinned set is the set formula over all "
+        "pinners of both geometries (no dependence on square order), the pin shortcut and the after-move king test are the ones of "
+        "C01/N2-N4 (re-run) - so no legal move is kept or dropped in one position and not in its mirror image",
         "Y1 every per-colour geometry constant of Black is the mirror of White's and anchored to the rules (compile-time witness); pawn "
         "attack tables are rank mirrors, all near-attack tables are file-symmetric; pawns::advance_* tabulated: Black = mirror of White, "
         "left = file mirror of right",
@@ -26,3 +29,6 @@ def run(ctx):
     symrules.diag_index_rule(ctx, facts, "Y4")
     emitrules.emitter_rule(ctx, facts, "Y5")
     genrules.semilegal_rule(ctx, facts, "Y6", thorough=True)
+    attackrules.prechecker_rule(ctx, facts, "Y7p")
+    attackrules.pinned_rule(ctx, facts, "Y7")
+    attackrules.checker_rule(ctx, facts, "Y7c")
